@@ -780,12 +780,12 @@ func c19S2(l *core.Ledger, r *rt) {
 			if !ok {
 				return
 			}
-			b, ok := ifi.Cond.(*ssa.BinOp)
-			if !ok || b.Op != token.LSS || b.X != loopIdx {
+			bx, bop, by, ok := sx.LoopCondition(ifi, loopIdx)
+			if !ok || bop != token.LSS || bx != ssa.Value(loopIdx) {
 				return
 			}
 			// Y must be len(ms.less) - 1
-			sub, ok := b.Y.(*ssa.BinOp)
+			sub, ok := by.(*ssa.BinOp)
 			if !ok || sub.Op != token.SUB {
 				return
 			}
